@@ -19,14 +19,15 @@ import (
 func init() { reg("C17", "hist", c17hist) }
 
 type regLevel struct {
-	val     slog.Level
-	title   string
-	tags    [6]string
-	hasTags bool
-	treatAs slog.Level // -1 none
-	errDev  bool
-	fg, bg  color.Color
-	hasClr  bool
+	val      slog.Level
+	title    string
+	tags     [6]string
+	hasTags  bool
+	treatAs  slog.Level // meaningful if hasTreat
+	hasTreat bool
+	errDev   bool
+	fg, bg   color.Color
+	hasClr   bool
 }
 
 var builtinNames = []string{"fail", "success", "ok", "always", "off", "no", "disabled", "trace", "debug", "devel", "dev", "develop", "info", "warn", "warning", "error", "fatal", "panic"}
@@ -213,6 +214,12 @@ func c17hist(c *Ctx) {
 					}
 					c.R.Add("numeric_titles_tried", 1)
 				}
+				if r.P(6) {
+					// a title that looks like the placeholder printed for values WITHOUT a name (what one gets by copying
+					// a name out of earlier output): of its own value, of another value, with a tail
+					rl.title = gen.Pick(r, []string{fmt.Sprintf("L#%d", int(rl.val)), fmt.Sprintf("L#%d", int(gen.Pick(r, universe))), "L#2-cache", "L#", "l#9", "L#x"})
+					c.R.Add("placeholder_like_titles_tried", 1)
+				}
 				if r.P(15) && len(e.regs) > 0 {
 					rl.title = gen.Pick(r, e.regs).title // colliding title
 				}
@@ -230,10 +237,16 @@ func c17hist(c *Ctx) {
 				}
 				if r.P(50) {
 					rl.treatAs = gen.Pick(r, []slog.Level{slog.ErrorLevel, slog.WarnLevel, slog.InfoLevel, slog.DebugLevel, slog.TraceLevel, slog.PanicLevel})
+					if r.P(15) {
+						// the target is a value below zero (an application's "more severe than Panic"): a level like any other
+						rl.treatAs = gen.Pick(r, []slog.Level{-1, -3, -40})
+						c.R.Add("levels_registered_as_treated_as_a_value_below_zero", 1)
+					}
 					if rl.val < 0 && r.P(25) {
 						rl.treatAs = rl.val // "treated as itself" (accepted for values below zero): gated by its own value, like no entry at all
 						c.R.Add("levels_registered_as_treated_as_themselves", 1)
 					}
+					rl.hasTreat = true
 					opts = append(opts, slog.RegWithTreatedAsLevel(rl.treatAs))
 					odesc = append(odesc, fmt.Sprintf("treatAs=%v", rl.treatAs))
 				}
@@ -295,7 +308,7 @@ func c17hist(c *Ctx) {
 				usedVals[rl.val] = true
 				usedNames[rl.title] = true
 				usedLower[strings.ToLower(rl.title)] = true
-				if rl.treatAs >= 0 {
+				if rl.hasTreat {
 					treat[rl.val] = rl.treatAs
 				}
 				universe = append(universe, rl.val)
